@@ -344,7 +344,7 @@ Proof.
       - destruct (t_buf (c_pool c t)); [discriminate|]. injection E as <- <- <-. repeat split; try reflexivity. discriminate.
       - injection E as <- <- <-. repeat split; try reflexivity. discriminate.
       - destruct (N.eqb_spec c0 0); [|destruct (c0 =? 1); discriminate].
-        injection E as <- <- <-. split; [cbn [null_pair]; apply N.eqb_eq; assumption|]. split; [assumption|].
+        injection E as <- <- <-. split; [cbn [null_pair is_chunkzero]; rewrite andb_true_r; apply N.eqb_eq; assumption|]. split; [assumption|].
         intros bf Hbf. rewrite buf_size_ret, buf_size_call_nonbuf by discriminate. apply (a_buf c I). assumption. }
     destruct Hnull as (Hnull & Hb & Hbs).
     destruct (null_facts e o r Hnull) as (Hcov & Hla & _).
@@ -902,9 +902,7 @@ Proof.
     exists took, took <= cnt /\
       res_cover e (chunk_res b [mk_run (Some b) (val_of e b) cnt] cnt (N.min k cnt)) = (if took =? 0 then [] else [(b, took)]) ++ [(b + took, cnt - took)]).
   { intros k. split; [reflexivity|]. split; [reflexivity|]. split; [reflexivity|]. split; [|split].
-    - unfold chunk_res. cbn [res_runs runs_take]. destruct (N.min k cnt =? 0); [reflexivity|]. unfold mk_run at 1. cbn [r_cnt].
-      destruct (cnt <=? N.min k cnt); cbn [runs_take forallb]; unfold run_idx_ok, mk_run; cbn [r_idx r_cnt r_val];
-        rewrite ?N.eqb_refl, ?orb_true_r; reflexivity.
+    - unfold chunk_res. cbn [res_runs]. apply runs_take_idx_ok. apply idx_ok_one. intros _. exact Hcl.
     - apply chunk_ok_at; assumption.
     - exists (N.min k cnt). split; [lia|]. unfold chunk_res. cbn [res_cover]. apply cover_chunk; [assumption|lia]. }
   destruct (q_mode q) as [v|k|k] eqn:M.
@@ -914,7 +912,7 @@ Proof.
     split; [intros H; exact H|]. split; [intros bf' H; exists bf'; split; [exact H|reflexivity]|].
     destruct (reports_idx v); cbn [map one_res is_end is_panic res_cover res_taken len_answer res_runs forallb];
       (split; [reflexivity|split; [reflexivity|split; [reflexivity|]]]);
-      (split; [unfold run_idx_ok; cbn [strip_idx mk_run r_idx r_cnt r_val]; rewrite ?N.eqb_refl, ?orb_true_r; reflexivity|]);
+      (split; [rewrite andb_true_r; try apply run_idx_ok_strip; apply run_idx_ok_at; [reflexivity|intros _; pose proof (Hone v eq_refl); lia]|]);
       (split; [intros k [X|X]; discriminate X|]); exists 0; (split; [lia|]);
       rewrite ?run_iv_strip, run_iv_at by assumption; cbn [N.eqb app]; f_equal; f_equal; lia.
   - destruct (Hchunk k) as (C1 & C2 & C3 & C4 & C5 & C6).
@@ -1225,7 +1223,8 @@ Proof.
               | Some used => 1 <= used /\ used <= cnt /\ map (run_iv e) inv = [(b, used)]
               end).
     { intros Hfu. destruct (HF Hfu) as (Hrs & Hc & P1 & P7).
-      destruct (loop_invoke_cases e lk crash (total_cnt (t_acc (c_pool c t))) b cnt P1 Hk1) as (inv2 & pan2 & E2 & Hi1 & _ & Hinv).
+      assert (P6 : b + cnt <= e_len e) by lia.
+      destruct (loop_invoke_cases e lk crash (total_cnt (t_acc (c_pool c t))) b cnt P1 Hk1 P6) as (inv2 & pan2 & E2 & Hi1 & _ & Hinv).
       rewrite Hrs in Eli. rewrite Eli in E2. injection E2 as <- <-. split; assumption. }
     destruct pan as [used|].
     + (* the closure panics: the loop returns *)
